@@ -13,6 +13,7 @@ func init() {
 	vRegister("HarnessC04_floats", HarnessC04_floats)
 	vRegister("HarnessC04_mergekeys", HarnessC04_mergekeys)
 	vRegister("HarnessC04_compare", HarnessC04_compare)
+	vRegister("HarnessC04_structure", HarnessC04_structure)
 }
 
 // The three decoders are outside (third-party parsers). What is decided here
@@ -190,4 +191,69 @@ func HarnessC04_mergekeys() {
 	vObserve("got", got)
 	vObserve("want", want)
 	vAssert("C04.mergekey.expanded", vEq(got, want))
+}
+
+// c04Deliver builds the same logical document {n: <int>, f: <float>, l: [<int>,
+// {k: <float>}], t: [{a: <int>}, {a: <int>}]} the way each decoder delivers it:
+//   JSON  numbers as json.Number, containers as map[string]any / []any
+//   TOML  int64 / float64, an array of tables as []map[string]any
+//   YAML  a yaml.Node tree (sequence / mapping / scalar nodes with tags)
+func c04Deliver(format int, n, n2 int64, x float64) (any, error) {
+	switch format {
+	case 0:
+		return normalize(map[string]any{
+			"n": json.Number(vIntText(n)), "f": json.Number(vFloatText(x)),
+			"l": []any{json.Number(vIntText(n2)), map[string]any{"k": json.Number(vFloatText(x))}},
+			"t": []any{map[string]any{"a": json.Number(vIntText(n))}, map[string]any{"a": json.Number(vIntText(n2))}},
+		})
+	case 1:
+		return normalize(map[string]any{
+			"n": n, "f": x,
+			"l": []any{n2, map[string]any{"k": x}},
+			"t": []map[string]any{{"a": n}, {"a": n2}},
+		})
+	default:
+		str := func(s string) *yaml.Node { return c04Scalar("!!str", s) }
+		in := func(v int64) *yaml.Node { return c04Scalar("!!int", vIntText(v)) }
+		fl := func(v float64) *yaml.Node { return c04Scalar("!!float", vFloatText(v)) }
+		seq := func(items ...*yaml.Node) *yaml.Node {
+			return &yaml.Node{Kind: yaml.SequenceNode, Tag: "!!seq", Content: items}
+		}
+		doc := &yaml.Node{Kind: yaml.DocumentNode, Content: []*yaml.Node{c04Map(
+			str("n"), in(n), str("f"), fl(x),
+			str("l"), seq(in(n2), c04Map(str("k"), fl(x))),
+			str("t"), seq(c04Map(str("a"), in(n)), c04Map(str("a"), in(n2))),
+		)}}
+		v, err := yamlTranslateNode(doc)
+		if err != nil {
+			return nil, err
+		}
+		return normalize(v)
+	}
+}
+
+// HarnessC04_structure: the same logical document delivered by the three
+// decoders is canonicalised to the same tree, for every pair of int64 and
+// every finite double it holds, and that tree has the expected types.
+func HarnessC04_structure() {
+	n, n2 := ndInt64(), ndInt64()
+	x := ndFloat()
+	vAssume(x == x)
+	vAssume(x-x == 0)
+	fa, fb := ndChoice(3), ndChoice(3)
+	a, errA := c04Deliver(fa, n, n2, x)
+	b, errB := c04Deliver(fb, n, n2, x)
+	vAssert("C04.structure.accepted", errA == nil && errB == nil)
+	vObserve("a", a)
+	vObserve("b", b)
+	vAssert("C04.structure.same", vEq(a, b))
+	want := map[string]any{
+		"n": int(n), "f": x,
+		"l": []any{int(n2), map[string]any{"k": x}},
+		"t": []any{map[string]any{"a": int(n)}, map[string]any{"a": int(n2)}},
+	}
+	vAssert("C04.structure.canonical", vEq(a, want))
+	// and a layer written in one format matches/overrides one written in another
+	vAssert("C04.structure.match", match(a, b))
+	vCover("structure.checked")
 }
